@@ -108,6 +108,12 @@ def traces(tier="quick"):
     return out
 
 
+def jobs(tier="quick"):
+    """the Taylor cell of every series coefficient: rigorous real-arithmetic bound |code - exact| <= 1e-11"""
+    from .taylor_cell import jobs_for
+    return jobs_for(['so3.left_jacobian', 'so3.left_jacobian_inv', 'so3.right_jacobian', 'so3.right_jacobian_inv', 'se3.left_Q', 'se3.left_jacobian', 'se3.right_jacobian', 'se3.left_jacobian_inv', 'se3.right_jacobian_inv', 'se23.left_jacobian', 'se23.right_jacobian', 'se23.left_jacobian_inv'], "C05")
+
+
 def canaries(tier="quick"):
     G = make_groups()
     info = G["SE3Quat"]
@@ -129,6 +135,6 @@ TRUSTED = [
     "CasADi forward AD (ca.jtimes) forms the directional derivative of M(exp(y)); the derivative is part of the extracted graph and replayed numerically",
 ]
 ASSUMPTIONS = [
-    "proved on the closed-form cell of every series coefficient (theta^2 >= 1e-3), for all 0 < theta (the inverse-Jacobian coefficient is undefined at theta = 2 pi k: requires theta < 2 pi); Taylor cell bounded in C06",
+    "proved on the closed-form cell of every series coefficient (theta^2 >= 1e-3), for all 0 < theta (the inverse-Jacobian coefficient is undefined at theta = 2 pi k: requires theta < 2 pi); on the Taylor cell the real-arithmetic deviation is bounded rigorously (taylor-cell obligations, <= 1e-11, translations in [-1, 1])",
     "the first-order expansion exp(y+d) = exp(J_l d) exp(y) + o(d) is read off the differential identity dexpL/dexpR (definition of the derivative)",
 ]
